@@ -317,7 +317,7 @@ def prefix_source(ctx, rule):
     extra = [s for s in seen if s.startswith("str::starts_with(") and s not in preds.values()]
     ctx.check(not extra, rule, fn, "predicates:no-extra", "no other prefix is treated as absolute", detail=str(extra))
     # result blocks: Into::into(arg2) (unchanged) vs format!
-    keep = [bi for bi, t in b.calls() if q.shape(b.expr_of_call(t)) == "arg2" and t["dest"]["l"] == 0 or (q.nice(t.get("callee")) == "Into::into" and q.shape(q.arg_expr(b, t, 0)) == "arg2")]
+    keep = [bi for bi, t in b.calls() if q.shape(b.expr_of_call(t)) == "arg2" and t["dest"]["l"] == 0 or (q.nice(t.get("callee")) in ("Into::into", "From::from") and len(t["args"]) == 1 and q.shape(q.arg_expr(b, t, 0)) == "arg2")]
     join = [bi for bi, t in b.calls() if q.nice(t.get("callee")) in ("fmt::format",)]
     if not ctx.check(len(keep) == 1 and len(join) == 1, rule, fn, "results", "the function returns the name unchanged or the joined name"):
         return
@@ -364,6 +364,11 @@ def into_sourcemap(ctx, rule):
     ig = [(bi, q.shape(b.expr_of_call(t), roles)) for bi, t in q.calls_to(b, "types::SourceMap::add_to_ignore_list")]
     it = named(b, lambda s: s == "IntoIterator::into_iter(arg1.ignore_list)")
     ok = len(ig) == 1 and ig[0][1] == "SourceMap::add_to_ignore_list(sm,try(Iterator::next(var:IntoIter<u32>)))" and len(it) == 1
+    if not ok and not ig:
+        # the same as one bulk insertion on every path: sm.ignore_list.extend(self.ignore_list)
+        ex = [(bi, q.shape(b.expr_of_call(t), roles)) for bi, t in q.calls_to(b, "Extend::extend")]
+        ok = len(ex) == 1 and ex[0][1] == "Extend::extend(sm.ignore_list,arg1.ignore_list)" and all(b.dominates(ex[0][0], r) for r in rets)
+        ig = ex
     ctx.check(ok, rule, fn, "ignore_list", "every element of the builder's ignore list is added to the map", detail=str(ig))
 
 
